@@ -389,6 +389,37 @@ fn run_batch(cfg: &Value) -> Value {
     #[cfg(feature = "model")]
     hook::configure(false, 0);
     #[cfg(not(feature = "model"))]
+    if cfg["documented_prover"].as_bool().unwrap_or(false) && all_proved {
+        // REAL flavour: with a stuck external RNG the library's proof must be BYTE FOR BYTE the one the documented nonce derivation gives
+        // (refimpl::reference_prove_documented); `alias` = pairs (nonce name, other nonce name) re-derives it with these two nonces identified
+        let alias: Vec<(String, String)> = cfg["alias"].as_array().map(|a| a.iter().map(|p| (p[0].as_str().unwrap_or("").to_string(), p[1].as_str().unwrap_or("").to_string())).collect()).unwrap_or_default();
+        let mut outv = Vec::new();
+        for (i, mem) in members.iter().enumerate() {
+            let ext = match members_cfg[i]["rng"].as_str() {
+                Some("zero") => 0u8,
+                Some("const") => 0x42u8,
+                _ => {
+                    outv.push(json!({"skipped": "external RNG model is not a stuck one"}));
+                    continue;
+                },
+            };
+            let vals: Vec<u64> = mem.info["values"].as_array().unwrap().iter().map(|v| v["v"].as_str().unwrap().parse::<u64>().unwrap()).collect();
+            let lib = mem.proof.as_ref().unwrap().to_bytes();
+            let diff = |a: &[u8], b: &[u8]| -> Value {
+                if a == b {
+                    return Value::Null;
+                }
+                let k = a.iter().zip(b.iter()).position(|(x, y)| x != y).unwrap_or(a.len().min(b.len()));
+                json!(if k == 0 { 0 } else { (k - 1) / 32 })
+            };
+            let doc = refimpl::reference_prove_documented(&transcripts[i], &mem.statement, &vals, &mem.blindings, ext, &[]);
+            let ali = if alias.is_empty() { None } else { refimpl::reference_prove_documented(&transcripts[i], &mem.statement, &vals, &mem.blindings, ext, &alias) };
+            outv.push(json!({"documented_equal": doc.as_ref().map(|d| d == &lib), "first_differing_element": doc.as_ref().map(|d| diff(d, &lib)),
+                "aliased_equal": ali.as_ref().map(|d| d == &lib)}));
+        }
+        return json!({"members": members.iter().map(|m| m.info.clone()).collect::<Vec<_>>(), "prove": prove_out, "documented": outv, "verify": Value::Null});
+    }
+    #[cfg(not(feature = "model"))]
     if cfg["attacks"].as_bool().unwrap_or(false) && all_proved {
         // REAL flavour: concrete attacks that only succeed when a derivation is weaker than documented (replay of C08 / C13 / C14 findings)
         let proofs: Vec<Vec<u8>> = members.iter().map(|m| m.proof.as_ref().unwrap().to_bytes()).collect();
@@ -617,6 +648,17 @@ fn run_zeroize(cfg: &Value) -> Value {
             drop(o);
             zscan::disarm()
         },
+        "opening_spare" => {
+            // the caller's blinding vector has spare capacity: whatever the constructor does with it must not release a block that still holds it
+            let mut r: Vec<Scalar> = Vec::with_capacity(x + 5);
+            for _ in 0..x {
+                r.push(marker_scalar());
+            }
+            zscan::arm();
+            let o = CommitmentOpening::new(marker_u64, r);
+            drop(o);
+            zscan::disarm()
+        },
         "witness" => {
             let w = RangeWitness::init((0..m).map(|_| CommitmentOpening::new(marker_u64, (0..x).map(|_| marker_scalar()).collect())).collect()).unwrap();
             zscan::arm();
@@ -629,8 +671,17 @@ fn run_zeroize(cfg: &Value) -> Value {
             drop(mk);
             zscan::disarm()
         },
-        "statement" | "prove" | "verify_recover" | "verify_recover_fail" | "verify_recover_fail_batch" => {
-            let pc = ristretto::create_pedersen_gens_with_extension_degree(ext_degree(x));
+        "statement" | "prove" | "verify_recover" | "verify_recover_fail" | "verify_recover_fail_batch" | "prove_refused_g" | "prove_refused_h" => {
+            #[allow(unused_mut)]
+            let mut pc = ristretto::create_pedersen_gens_with_extension_degree(ext_degree(x));
+            // a prover call that is refused INSIDE the transcript set-up (after the witness checks passed): the compressed form of a generator that is
+            // hashed is the identity, while the generator used for the commitments is intact
+            if what == "prove_refused_g" {
+                pc.g_base_compressed_vec[0] = <curve25519_dalek::ristretto::CompressedRistretto as curve25519_dalek::traits::Identity>::identity();
+            }
+            if what == "prove_refused_h" {
+                pc.h_base_compressed = <curve25519_dalek::ristretto::CompressedRistretto as curve25519_dalek::traits::Identity>::identity();
+            }
             let params = RangeParameters::init(n, m, pc).unwrap();
             let seeded = cfg["seeded"].as_bool().unwrap_or(m == 1);
             let mut openings = Vec::new();
@@ -661,6 +712,14 @@ fn run_zeroize(cfg: &Value) -> Value {
                     let p = RistrettoRangeProof::prove_with_rng(&mut t, &st, &w, &mut rng);
                     let r = zscan::disarm();
                     assert!(p.is_ok());
+                    r
+                } else if what == "prove_refused_g" || what == "prove_refused_h" {
+                    zscan::arm();
+                    let p = RistrettoRangeProof::prove_with_rng(&mut t, &st, &w, &mut rng);
+                    let refused = p.is_err();
+                    drop(p);
+                    let r = zscan::disarm();
+                    assert!(refused);
                     r
                 } else if what == "verify_recover_fail" || what == "verify_recover_fail_batch" {
                     // a recovering verification that FAILS after the mask was recovered: r1 does not enter the challenges or the recovery,
